@@ -486,10 +486,14 @@ fn issue_crafted(w: &mut World, step: usize) {
     "base_context_not_first" => {
       // the base context is present but not the FIRST entry (VC data model: "the first item is a URI with the value
       // https://www.w3.org/2018/credentials/v1"): well-formed claims, a structurally invalid credential
-      claims["vc"]["@context"] = if ctx::choose(2) == 0 {
-        serde_json::json!(["https://www.w3.org/2018/credentials/examples/v1", "https://www.w3.org/2018/credentials/v1"])
-      } else {
-        serde_json::json!([{"sim": "https://sim.example/vocab#"}, "https://www.w3.org/2018/credentials/v1"])
+      // (also: the first entry is the base context of ANOTHER version of the data model, as issuers of the next
+      // version write it - alone, or followed by the v1 context)
+      claims["vc"]["@context"] = match ctx::choose(5) {
+        0 => serde_json::json!(["https://www.w3.org/2018/credentials/examples/v1", "https://www.w3.org/2018/credentials/v1"]),
+        1 => serde_json::json!([{"sim": "https://sim.example/vocab#"}, "https://www.w3.org/2018/credentials/v1"]),
+        2 => serde_json::json!("https://www.w3.org/ns/credentials/v2"),
+        3 => serde_json::json!(["https://www.w3.org/ns/credentials/v2", "https://www.w3.org/2018/credentials/v1"]),
+        _ => serde_json::json!(["https://www.w3.org/2018/credentials/v2", "https://www.w3.org/ns/credentials/examples/v2"]),
       };
     }
     "nbf_and_iat" => {
@@ -654,7 +658,8 @@ fn present_crafted(w: &mut World, step: usize) {
     "holder_object_mismatch",
     "iss_is_the_controller_of_the_document",
     "holder_is_a_did_url_of_the_issuer",
-  ][ctx::choose(12)];
+    "aud_is_an_array_of_two",
+  ][ctx::choose(13)];
   let now_h = w.clock.now + w.parties[h].skew;
   let mut claims = serde_json::json!({
     "iss": p.did,
@@ -668,6 +673,11 @@ fn present_crafted(w: &mut World, step: usize) {
       claims["vp"]["holder"] = format!("{}{}", p.did, ["#key-of-somebody-else", "/agents/7", "?service=wallet"][ctx::choose(3)]).into()
     }
     "holder_object_mismatch" => claims["vp"]["holder"] = serde_json::json!({"id": "did:sim:someoneelse", "name": "Somebody Else"}),
+    // RFC 7519 allows several audiences; the claim model of the library (and the value it returns) has one URL: a
+    // presentation signed for two audiences cannot come back as "the audience that was signed", it has to be refused
+    "aud_is_an_array_of_two" => {
+      claims["aud"] = serde_json::json!([format!("https://verifier{}.example/", ctx::choose(3)), "https://somebody-else.example/"])
+    }
     "id_mismatch" => {
       claims["jti"] = "https://pres.example/a".into();
       claims["vp"]["id"] = "https://pres.example/b".into();
@@ -1651,7 +1661,7 @@ fn validate_presentation(w: &mut World, step: usize) {
               match (&p.payload, truth) {
                 (Some(c), Some(tp)) => {
                   let iss = c.get("iss").and_then(|i| i.as_str()).unwrap_or("");
-                  if tp.crafted == Some("holder_object_mismatch") {
+                  if matches!(tp.crafted, Some("holder_object_mismatch") | Some("aud_is_an_array_of_two")) {
                     // the duplicate is of another JSON type than the claim model has: refused when the claims are read,
                     // i.e. before the issuer is compared with the supplied document
                     want = Some(if iss != sup.did { "PresentationStructure|DocumentMismatch" } else { "PresentationStructure" });
